@@ -28,7 +28,10 @@ HOT_YEARS = [-2000, -401, -400, -100, -4, -1, 0, 1, 4, 100, 400, 1600, 1700,
 DURS = ["P1D", "P1M", "P1Y", "-P1M", "P1Y1M", "PT36H", "P1W", "P30D", "P59D",
         "P400D", "P4Y", "P12M", "-P1Y", "P1M1D", "PT1H", "P365D", "P366D",
         "P360D", "-P1D", "P2M", "-P60D", "P1Y2M3DT4H5M6S", "PT86400S",
-        "P11M", "-P13M", "P100Y"]
+        "P11M", "-P13M", "P100Y",
+        # spans of more than a 400-year cycle in exact units (a fast path for
+        # huge day counts would be calendar-dependent)
+        "P150000D", "-P147000D", "PT3600000H", "P300001D", "P21000W"]
 DUMP_FORMATS = ["CCYY-MM-DD", "CCYY-DDD", "CCYY-Www-D", "CCYYMMDDThhmmssZ",
                 "CCYY-MM-DDThh:mm:ss+05:30", "+XCCYY-DDDThh", "CCYYWwwD",
                 "%Y-%m-%d %j", "%F %X", "%s", "CCYY-MM"]
@@ -209,7 +212,8 @@ def gen_op(rng, kind, hot, handles):
     if kind == "from_epoch":
         return ["from_epoch", rng.choice(
             [0, 86400 * 59, 86400 * 365, 951782400, -86400 * 400,
-             86400 * 360 * 30, rng.randint(-10 ** 10, 10 ** 10)])]
+             86400 * 360 * 30, rng.randint(-10 ** 10, 10 ** 10),
+             rng.randint(-3 * 10 ** 10, 3 * 10 ** 10), 13 * 10 ** 9])]
     if kind == "props_epoch":
         return ["props_epoch", rng.choice(
             [0, 86400 * 59, 951782400, -86400 * 400, 86400 * 360 * 30,
@@ -411,7 +415,7 @@ def directed_ops():
               "1900-059T06Z", "2000-W09-2T23:59:59Z", "20231231T000000Z",
               "0000-12-30T00:00:00Z", "-000001-12-30T00:00:00Z"):
         for d in ("P1D", "P2D", "P1M", "P1Y", "-P1M", "P59D", "P400D",
-                  "P1W", "P1Y1M"):
+                  "P1W", "P1Y1M", "P150000D", "-P147000D"):
             ops.append(["add", p, d])
         ops += [["reprs", p], ["props", p], ["epoch", p], ["tz", p, 13, 0],
                 ["dump", p, "CCYY-DDD"], ["dump", p, "CCYY-Www-D"],
@@ -435,7 +439,9 @@ def directed_ops():
     for xi, (xkind, text) in enumerate(X_VALUES):
         for action in X_ACTIONS[xkind]:
             ops.append(["xuse", "x%d" % xi, xkind, text, action])
-    ops += [["props_epoch", 86400 * 59], ["props_epoch", 951782400],
+    ops += [["cli", ["2000-01-01T00:00:00Z", "--offset=P150000D"]],
+            ["from_epoch", 13 * 10 ** 9], ["from_epoch", -2 * 10 ** 10],
+            ["props_epoch", 86400 * 59], ["props_epoch", 951782400],
             ["from_epoch", 0], ["from_epoch", 86400 * 59],
             ["from_epoch", 951782400], ["from_epoch", -86400 * 400],
             ["from_epoch", 86400 * 365 * 40],
